@@ -302,6 +302,24 @@ pub fn stream_case(frames: &[Frame], chunks_override: Option<Vec<Vec<u8>>>, r: &
             }
         }
     }
+    // the same frames written one after the other into ONE buffer, as a framed writer does when
+    // frames are queued faster than they are flushed: must be the concatenation of the encodings above
+    {
+        let mut codec = MessageCodec;
+        let mut dst = BytesMut::new();
+        let mut panicked = false;
+        for f in frames {
+            if catch(|| codec.encode(f.clone(), &mut dst)).is_err() {
+                panicked = true;
+                break;
+            }
+        }
+        if panicked {
+            let _ = writeln!(out, "shared panic");
+        } else {
+            let _ = writeln!(out, "shared {}", if dst.is_empty() { "-".to_string() } else { hex(&dst) });
+        }
+    }
     let chunks = chunks_override.unwrap_or_else(|| cut(r, &stream));
     let _ = writeln!(out, "chunks {}", hexs(&chunks));
     run_decoder(&chunks, out);
